@@ -125,8 +125,8 @@ func writesFrom(l *node.Link, off int64) []node.WriteRecord {
 // wireMonitor judges the byte stream the driver put on the pool connection (all of it, from the first
 // byte of the connection): it must parse, with the node package's codec, into whole frames, followed by an
 // incomplete frame only if some Write call was cut short - and then nothing may follow the cut, and the driver
-// must close the connection.  inFlight: every request of the scenario was issued before any write could fail.
-func wireMonitor(o *hlib.Out, idx int, what string, e *connEnv, off int64, inFlight bool, input interface{}) (torn bool, late int) {
+// must close the connection.
+func wireMonitor(o *hlib.Out, idx int, what string, e *connEnv, off int64, _ bool, input interface{}) (torn bool, late int) {
 	l := e.pool.Link()
 	cut := int64(-1) // end of the first Write call that accepted a proper, non-empty part of its buffer
 	var cutRec node.WriteRecord
@@ -162,18 +162,14 @@ func wireMonitor(o *hlib.Out, idx int, what string, e *connEnv, off int64, inFli
 				late++
 			}
 		}
-		f := ""
-		if inFlight {
-			f = "F-C07-1"
-		}
-		o.Violate(idx, "frame-after-torn-frame", f, fmt.Sprintf("%s: %d bytes (%d Write calls) were put on the connection after a torn frame (the cut Write accepted %d of %d bytes)", what, extra, late, cutRec.N, cutRec.Len), input)
+		o.Violate(idx, "frame-after-torn-frame", "", fmt.Sprintf("%s: %d bytes (%d Write calls) were put on the connection after a torn frame (the cut Write accepted %d of %d bytes)", what, extra, late, cutRec.N, cutRec.Len), input)
 	}
 	return torn, late
 }
 
 // followUp: a request that starts after the failed write has been reported to its caller.  If the failed write
-// left part of a frame on the wire (k > 0), nothing more may ever be written on that connection; this later
-// request was not registered when the partial write happened, so known finding F-C07-1 does not cover it.
+// left part of a frame on the wire (k > 0), nothing more may ever be written on that connection; this one
+// starts after the failure has been reported.
 func followUp(o *hlib.Out, idx int, e *connEnv, k int, in interface{}) {
 	l := e.pool.Link()
 	before := l.C2S.Written()
